@@ -1,6 +1,8 @@
 import RoaringModel.Lemmas.Canonical
 import RoaringModel.Ser
 import RoaringModel.Lemmas.TreemapCanonical
+import RoaringModel.Props.C01
+import RoaringModel.Props.C10
 /-!
 # C04 — equality is extensional: same elements, equal values, whatever the history (property theorems)
 
@@ -47,6 +49,30 @@ theorem C04_canonical64 (s t : Treemap) (hs : Treemap.WFd Bitmap.WF s) (ht : Tre
 theorem C04_eq_iff_elems64 (s t : Treemap) (hs : Treemap.WFd Bitmap.WF s) (ht : Treemap.WFd Bitmap.WF t) :
     Treemap.eq s t = true ↔ Treemap.elems s = Treemap.elems t :=
   Treemap.eq_iff_elems s t hs ht
+
+/-- **Whatever the history (32-bit).** Two finite mutation histories from `new()` that produce the same mathematical
+    set produce *the same value* (hence `==`, identical bytes, same `serialized_size`), in either build configuration. -/
+theorem C04_histories32 (dbg : Bool) (ops1 ops2 : List Op32) (h1 : ∀ op ∈ ops1, op.Valid) (h2 : ∀ op ∈ ops2, op.Valid)
+    (h : (Spec.run [] ops1).1 = (Spec.run [] ops2).1) :
+    ∃ b, Bitmap.run dbg Bitmap.new ops1 = some (b, (Spec.run [] ops1).2) ∧
+         Bitmap.run dbg Bitmap.new ops2 = some (b, (Spec.run [] ops2).2) := by
+  obtain ⟨b1, r1, w1, e1⟩ := C01.C01_history dbg ops1 h1
+  obtain ⟨b2, r2, w2, e2⟩ := C01.C01_history dbg ops2 h2
+  have : b1 = b2 := Bitmap.canonical b1 b2 w1 w2 (by rw [e1, e2, h])
+  subst this
+  exact ⟨b1, r1, r2⟩
+
+/-- **Whatever the history (64-bit).** The same for `RoaringTreemap` histories (insert, remove, ranges, push, append,
+    extend, clear and the queries of `Op64`). -/
+theorem C04_histories64 (dbg : Bool) (ops1 ops2 : List Op64) (h1 : ∀ op ∈ ops1, op.Valid) (h2 : ∀ op ∈ ops2, op.Valid)
+    (h : (Spec.run64 [] ops1).1 = (Spec.run64 [] ops2).1) :
+    ∃ t, Treemap.run dbg Treemap.new ops1 = some (t, (Spec.run64 [] ops1).2) ∧
+         Treemap.run dbg Treemap.new ops2 = some (t, (Spec.run64 [] ops2).2) := by
+  obtain ⟨t1, r1, w1, e1⟩ := C10.C10_history dbg ops1 h1
+  obtain ⟨t2, r2, w2, e2⟩ := C10.C10_history dbg ops2 h2
+  have : t1 = t2 := Treemap.canonical t1 t2 w1 w2 (by rw [e1, e2, h])
+  subst this
+  exact ⟨t1, r1, r2⟩
 
 /-- non-vacuity (64-bit): a two-partition treemap reached by two insertion orders -/
 example : (Treemap.insert (Treemap.insert [] 5).1 8589934599).1 = (Treemap.insert (Treemap.insert [] 8589934599).1 5).1 := by
